@@ -53,6 +53,8 @@ enum Unit {
     Star { quoted: bool },
     Count,
     Pos1 { quoted: bool },
+    /// `${IFS=:}` / `${IFS:=:}`: assigns IFS while the word is being expanded
+    IfsAssign { colon: bool, quoted: bool },
 }
 
 impl Unit {
@@ -81,6 +83,7 @@ impl Unit {
             Unit::Star { quoted } => q(*quoted, "$*".into()),
             Unit::Count => "$#".into(),
             Unit::Pos1 { quoted } => q(*quoted, "$1".into()),
+            Unit::IfsAssign { colon, quoted } => q(*quoted, format!("${{IFS{}=:}}", if *colon { ":" } else { "" })),
         }
     }
 }
@@ -125,6 +128,10 @@ fn units() -> Vec<Unit> {
         v.push(Unit::Pos1 { quoted });
     }
     v.push(Unit::Count);
+    for colon in [false, true] {
+        v.push(Unit::IfsAssign { colon, quoted: false });
+    }
+    v.push(Unit::IfsAssign { colon: true, quoted: true });
     v
 }
 
@@ -238,9 +245,13 @@ fn refexp(word: &[Unit], cfg: &Config) -> Outcome {
     let mut b = Builder { fields: vec![] };
     let mut x: Option<String> = cfg.x.map(|s| s.to_string());
     let mut assigned: Option<String> = None;
-    let ifs = ifs_of(cfg);
-    let edge_ifs = |p: &str| p.chars().next().is_some_and(|c| ifs.contains(c)) || p.chars().last().is_some_and(|c| ifs.contains(c));
+    // IFS can be assigned by an expansion in the word itself (`${IFS:=:}`): `$*` joins with the value
+    // current at that point, field splitting (done after all expansions of the word) uses the last one
+    let mut cur_ifs: Option<String> = cfg.ifs.map(|s| s.to_string());
     for u in word {
+        let ifs_now: String = cur_ifs.clone().unwrap_or_else(|| " \t\n".to_string());
+        let ifs = ifs_now.as_str();
+        let edge_ifs = |p: &str| p.chars().next().is_some_and(|c| ifs.contains(c)) || p.chars().last().is_some_and(|c| ifs.contains(c));
         match u {
             Unit::Lit(c) => b.push(&c.to_string(), false, false),
             Unit::Sq(s) | Unit::Dq(s) => {
@@ -339,6 +350,20 @@ fn refexp(word: &[Unit], cfg: &Config) -> Outcome {
                     }
                 }
             }
+            Unit::IfsAssign { colon, quoted } => {
+                if *quoted {
+                    b.quote_mark();
+                }
+                let assign = match &cur_ifs {
+                    None => true,
+                    Some(v) => *colon && v.is_empty(),
+                };
+                if assign {
+                    cur_ifs = Some(":".into());
+                }
+                let v = cur_ifs.clone().unwrap();
+                b.push(&v, *quoted, true);
+            }
             Unit::At { quoted: true } => {
                 for (i, p) in cfg.params.iter().enumerate() {
                     if i > 0 {
@@ -350,7 +375,7 @@ fn refexp(word: &[Unit], cfg: &Config) -> Outcome {
             }
             Unit::Star { quoted: true } => {
                 b.quote_mark();
-                let sep: String = match cfg.ifs {
+                let sep: String = match &cur_ifs {
                     None => " ".into(),
                     Some(s) => s.chars().next().map(|c| c.to_string()).unwrap_or_default(),
                 };
@@ -360,7 +385,7 @@ fn refexp(word: &[Unit], cfg: &Config) -> Outcome {
                 if cfg.params.iter().any(|p| p.is_empty() || edge_ifs(p)) {
                     return Outcome::Unspecified("unquoted $@/$* with empty or IFS-edged parameters");
                 }
-                if matches!(u, Unit::Star { .. }) && cfg.ifs == Some("") {
+                if matches!(u, Unit::Star { .. }) && cur_ifs.as_deref() == Some("") {
                     return Outcome::Unspecified("unquoted $* with empty IFS");
                 }
                 for (i, p) in cfg.params.iter().enumerate() {
@@ -373,6 +398,8 @@ fn refexp(word: &[Unit], cfg: &Config) -> Outcome {
         }
     }
     // field splitting (2.6.5)
+    let ifs_final: String = cur_ifs.clone().unwrap_or_else(|| " \t\n".to_string());
+    let ifs = ifs_final.as_str();
     let ws = |c: char| ifs.contains(c) && matches!(c, ' ' | '\t' | '\n');
     let nws = |c: char| ifs.contains(c) && !matches!(c, ' ' | '\t' | '\n');
     let mut out: Vec<String> = vec![];
@@ -440,6 +467,11 @@ fn new_env(cfg: &Config) -> Env<Rc<Concurrent<VirtualSystem>>> {
 }
 
 fn set_x(env: &mut Env<Rc<Concurrent<VirtualSystem>>>, cfg: &Config) {
+    // (a word may have assigned IFS)
+    let _ = env.variables.unset("IFS", Scope::Global);
+    if let Some(ifs) = cfg.ifs {
+        env.variables.get_or_new("IFS", Scope::Global).assign(ifs, None).unwrap();
+    }
     let _ = env.variables.unset("x", Scope::Global);
     if let Some(x) = cfg.x {
         env.variables.get_or_new("x", Scope::Global).assign(x, None).unwrap();
